@@ -111,6 +111,12 @@ def run(ctx):
     runner.prove(ctx, MODULE, THEOREMS, FILES)
     pairs = valcases.schema_batch(ctx, ctx.n(120, 900), customs=False)
     pool = [s for s, w in pairs]
+    from d42 import substitute
+    for s0, w0 in pairs[: ctx.n(60, 400)]:
+        try:
+            pool.append(substitute(s0, w0))
+        except Exception:
+            pass
     reqs, info = [], []
 
     def corr(a, b):
@@ -181,6 +187,29 @@ def run(ctx):
             except Exception:
                 pass
         corr(a, b)
+    # schemas narrowed by substitution against hand-written equivalents and near-equivalents (props hold explicit Nil)
+    from d42 import substitute as _sub
+    narrowed = [_sub(schema.list(schema.int), [1, ...]), _sub(schema.list(schema.int), [..., 1]), _sub(schema.list(schema.int), [1, 2]),
+                _sub(schema.list(schema.int).len(2), [1, ...]), _sub(schema.list, [1]), _sub(schema.dict, {"a": 1})]
+    hand = [schema.list([schema.int(1), ...]), schema.list([schema.int(1), ...]).len(3), schema.list([..., schema.int(1)]),
+            schema.list([schema.int(1), schema.int(2)]), schema.list([schema.int(1)]), schema.list([schema.int(1), ...]).len(1, ...),
+            schema.dict({"a": schema.int(1)}), schema.list(schema.int)]
+    for a in narrowed + hand:
+        for b in narrowed + hand:
+            ctx.count("narrowed_pairs")
+            r1, r2 = eq(a, b), eq(b, a)
+            if r1 is not r2:
+                ctx.violation("== is not symmetric", a=repr(a), b=repr(b), results=[repr(r1), repr(r2)], py_a=a, py_b=b)
+            if r1 is True:
+                for x in ([1], [1, 2], [1, 2, 3], [], [2], {"a": 1}, {}):
+                    try:
+                        if validate(a, x).has_errors() != validate(b, x).has_errors():
+                            ctx.violation("schemas compare equal but give different verdicts on a value", a=repr(a), b=repr(b),
+                                          value=repr(x), py_a=a, py_b=b, k8=universal_at_edge(a) or universal_at_edge(b))
+                            break
+                    except Exception:
+                        pass
+            corr(a, b)
     # cross-class pairs, with universal schemas on either side
     universal = [schema.any, schema.int | schema.any, schema.alias("U", schema.any), schema.any(schema.any, schema.none)]
     others = [schema.int, schema.str, schema.none, schema.list, schema.dict, schema.bool, schema.float, schema.bytes,
